@@ -38,20 +38,24 @@ os.makedirs(dst, exist_ok=True)
 for f in os.listdir(seed):
     if os.path.isfile(os.path.join(seed, f)):
         shutil.copy(os.path.join(seed, f), dst)
-assert sh("git -C /repo status --porcelain").stdout.strip() == "", "/repo not clean"
-a = sh("git -C /repo apply %s" % patch)
+# the checks are pointed (VERIF_REPO) at a scratch worktree of /repo's HEAD with the patch applied, so that /repo itself
+# stays untouched while background runs may be using it
+run_wt = tempfile.mkdtemp(prefix="seedrun-")
+os.rmdir(run_wt)
+assert sh("git -C /repo worktree add -q --detach %s HEAD" % run_wt).returncode == 0
+a = sh("git -C %s apply %s" % (run_wt, patch))
 assert a.returncode == 0, a.stderr
 checks = {}
 try:
     for i in ids.split(","):
-        r = sh("/verif/check %s %s" % (i, tier))
+        r = sh("VERIF_REPO=%s /verif/check %s %s" % (run_wt, i, tier))
         lines = [l for l in r.stdout.splitlines() if not l.startswith("KNOWN-FINDING")]
         checks[i] = {"rc": r.returncode, "tail": lines[-4:]}
         print("[%s] rc=%d  %s" % (i, r.returncode, " | ".join(l[:200] for l in lines[-4:])))
         if r.returncode == 2:
             print(r.stderr[-1500:])
 finally:
-    sh("git -C /repo checkout -- .")
+    sh("git -C /repo worktree remove --force %s" % run_wt)
     sh("rm -rf /verif/replays/found")
 res["checks"] = checks
 m = os.path.join(dst, "meta.json")
